@@ -4,13 +4,18 @@ from lib import (Canon, norm_arm, walk, nodes, ends, src, psrc, outcome, contain
                  strip_refs, guards, gtext)
 
 EXPLANATION = (
-    "Decides the structure of the selection tables, not the f64 boundary arithmetic: (D1) each row of the integer format table "
+    "Decides the structure of the selection tables and, by evaluation over the property's boundary lattice, the bounds-driven "
+    "search and the three default range checks; it does not decide floating-point rounding between lattice points, nor the "
+    "string-format conversions beyond their table: (D1) each row of the integer format table "
     "pairs its format name with the type of the same signedness and width, its two limits are <that type>::MIN/MAX and its "
     "NonZero column has the row's width; (D2) every search over the table that returns a row's type reads both limit columns of "
     "the row (a one-sided bound must not select a type by one limit only), and the by-format lookup returns the row only under "
     "both range tests; (D3) every use of the NonZero column is control-dependent on `min == 1`; (D4) the fall-backs are the wide "
     "types (unknown string format -> String, float selector wildcard -> f64, integer last resort -> i64) and recognised string "
-    "formats map to the documented types; (D5) both default-range tests end in Err(InvalidValue); (D6) exclusive bounds become "
+    "formats map to the documented types; (D5) the default range checks are evaluated (rules/minirust.py): on the path that answers from the format's row, in the "
+    "general check and in the number conversion a default is rejected with InvalidValue exactly when it lies outside the schema's "
+    "range (stated bounds, the format's limits otherwise), the general check runs after the last assignment to the bounds, and a "
+    "number conversion without such a check is a violation; (D6) exclusive bounds become "
     "inclusive integer bounds by exactly +1 / -1 and combine with max()/min(); (D7) each bounds-driven search over the table is "
     "*evaluated* (a small interpreter over its HIR: comparisons, `abs`, `&&`/`||`, if/else, casts of the integer limits) on every "
     "row of the table in iteration order, for boundary scenarios built from the rows' own limits (bound = a row's limit, bound "
